@@ -73,6 +73,17 @@ def _vec(f, a):
     return out.view(SArr)
 
 
+def _lift(v):
+    """a concrete scalar met inside a symbolic array: real model -> exact rational, float64 model -> the binary64 value"""
+    from vf import symx
+
+    if symx.FP_MODE:
+        from vf import fpx
+
+        return fpx.SF(fpx.fpval(v))
+    return SV(zval(v))
+
+
 def _lt(a, b):
     r = a < b
     return bool(r)
@@ -117,7 +128,9 @@ class Facade:
     def pi(self):
         from vf import uf
 
-        if Engine.cur is None:
+        from vf import symx
+
+        if Engine.cur is None or symx.FP_MODE:
             return np.pi
         return uf.pi()
 
@@ -251,13 +264,13 @@ class Facade:
     # ---- elementwise -----------------------------------------------
     def sqrt(self, a):
         if is_symbolic_seq(a):
-            return _vec(lambda v: v.sqrt() if isinstance(v, SV) else SV(zval(v)).sqrt(), a)
+            return _vec(lambda v: v.sqrt() if isinstance(v, SV) else _lift(v).sqrt(), a)
         return np.sqrt(_defloat(a))
 
     def _unary(name):
         def f(self, a, *args, **k):
             if is_symbolic_seq(a):
-                return _vec(lambda v: getattr(v if isinstance(v, SV) else SV(zval(v)), name)(), a)
+                return _vec(lambda v: getattr(v if isinstance(v, SV) else _lift(v), name)(), a)
             return getattr(np, name)(_defloat(a), *args, **k)
 
         f.__name__ = name
